@@ -221,6 +221,60 @@ def u_unapply(c):
     c.oblige("post/socket-address-and-protocol-restored", ctx.remote_ip is ctx._orig_remote_ip and ctx.protocol == ctx._orig_protocol)
 
 
+XH_SETS = [{}, {"X-Real-Ip": "4.4.4.4"}, {"X-Forwarded-For": "5.5.5.5"}, {"X-Forwarded-For": "6.6.6.6, 127.0.0.1"}, {"X-Real-Ip": "not an ip"}, {"X-Real-Ip": "2001:db8::1"},
+           {"X-Scheme": "https"}, {"X-Forwarded-Proto": "http"}, {"X-Real-Ip": "4.4.4.4", "X-Scheme": "http"}, {"X-Real-Ip": "4.4.4.4", "X-Scheme": "https"},
+           {"X-Forwarded-For": "5.5.5.5", "X-Forwarded-Proto": "https"}, {"X-Scheme": "gopher"}]
+
+
+@unit("C32", "context.lifecycle", [(M, "_HTTPRequestContext.__init__"), (M, "_HTTPRequestContext._apply_xheaders"), (M, "_HTTPRequestContext._unapply_xheaders")],
+      bounded="finite case analysis: 5 kinds of connection (IPv4, IPv6, Unix socket, closed stream, TLS) x %d header sets for a first request x %d for a second one on the same "
+              "connection, on a context built by the real constructor" % (len(XH_SETS), len(XH_SETS)))
+def u_lifecycle(c):
+    """whatever the first request's forwarding headers did to the connection's context, after it is over the context shows the socket's own address and protocol again (what the
+    constructor derived from the connection - not from any particular saved field), so the second request starts from there: nothing leaks between requests, on any kind of socket"""
+    import socket
+    import tornado.httpserver as HS
+    import tornado.httputil as HU
+    import tornado.iostream as IO
+    from pyvc import core
+    core.PATH_CAP = max(core.PATH_CAP, 4000)
+    kind = c.choose("connection", ["ipv4", "ipv6", "unix-socket", "closed-stream", "tls"])
+    first = c.choose("first-request-headers", list(range(len(XH_SETS))))
+    second = c.choose("second-request-headers", list(range(len(XH_SETS))))
+
+    class Sock:
+        family = {"ipv4": socket.AF_INET, "ipv6": socket.AF_INET6, "unix-socket": socket.AF_UNIX, "tls": socket.AF_INET}.get(kind)
+    stream = (IO.SSLIOStream if kind == "tls" else IO.IOStream).__new__(IO.SSLIOStream if kind == "tls" else IO.IOStream)
+    stream.socket = None if kind == "closed-stream" else Sock()
+    address = {"ipv4": ("10.0.0.9", 1234), "ipv6": ("fe80::9", 1234, 0, 0), "unix-socket": "", "closed-stream": ("10.0.0.9", 1234), "tls": ("10.0.0.9", 1234)}[kind]
+    ctx = HS._HTTPRequestContext.__new__(HS._HTTPRequestContext)
+    out = c.call(c.fn(M, "_HTTPRequestContext.__init__"), ctx, stream, address, None, ["127.0.0.1"])
+    c.only_raises(out, ())
+    if not out.returned:
+        return
+    own = (ctx.remote_ip, ctx.protocol)
+    c.oblige("init/the-context-shows-the-socket's-own-address-and-protocol",
+             own == ({"ipv4": "10.0.0.9", "ipv6": "fe80::9", "tls": "10.0.0.9"}.get(kind, "0.0.0.0"), "https" if kind == "tls" else "http"))
+    apply_, unapply = c.fn(M, "_HTTPRequestContext._apply_xheaders"), c.fn(M, "_HTTPRequestContext._unapply_xheaders")
+    o1 = c.call(apply_, ctx, HU.HTTPHeaders(XH_SETS[first]))
+    c.only_raises(o1, ())
+    o2 = c.call(unapply, ctx)
+    c.only_raises(o2, ())
+    c.cover("lifecycle")
+    c.oblige("post/after-the-first-request-the-context-is-the-socket's-own-again", (ctx.remote_ip, ctx.protocol) == own)
+    o3 = c.call(apply_, ctx, HU.HTTPHeaders(XH_SETS[second]))
+    c.only_raises(o3, ())
+    h2 = XH_SETS[second]
+    names_ip = "X-Real-Ip" in h2 or "X-Forwarded-For" in h2
+    names_proto = "X-Scheme" in h2 or "X-Forwarded-Proto" in h2
+    c.oblige("post/a-second-request-that-names-no-address-sees-the-socket's-own", names_ip or ctx.remote_ip == own[0])
+    c.oblige("post/a-second-request-that-names-no-protocol-sees-the-socket's-own", names_proto or ctx.protocol == own[1])
+    c.oblige("post/an-address-that-is-not-numeric-is-never-taken", ctx.remote_ip in (own[0], "4.4.4.4", "5.5.5.5", "6.6.6.6", "2001:db8::1"))
+    o4 = c.call(unapply, ctx)
+    c.only_raises(o4, ())
+    c.oblige("post/after-the-second-request-too", (ctx.remote_ip, ctx.protocol) == own)
+
+
 @unit("C32", "_ProxyAdapter", [(M, "_ProxyAdapter.headers_received"), (M, "_ProxyAdapter.finish"), (M, "_ProxyAdapter.on_connection_close"),
                                (M, "_ProxyAdapter.data_received"), (M, "_ProxyAdapter._cleanup")])
 def u_adapter(c):
